@@ -33,7 +33,7 @@ import (
 
 type c09fdCase struct {
 	Idx   int      `json:"idx"`
-	Cfgs  []string `json:"cfgs"`  // per pipeline: "none" or the name of its dead queue config
+	Cfgs  []string `json:"cfgs"`  // per pipeline the shape of its deadqueue section: "none" | "empty" ({}) | "type" (type only) | a config name
 	Order []int    `json:"order"` // construction order, 1-based pipeline numbers
 }
 
@@ -57,6 +57,8 @@ type c09fdRes struct {
 	Pipes       []c09fdPipe `json:"pipes"`
 	StaticHasDQ bool        `json:"static_plain_has_dq"`
 	StaticDQ    string      `json:"static_plain_dq_type,omitempty"`
+	// getStaticInfo per section shape, asked after everything was built: does the result carry a DeadQueueInfo?
+	StaticShape map[string]bool `json:"static_shape_has_dq"`
 }
 
 // bookkeeping of one case, keyed by pipeline name
@@ -144,14 +146,24 @@ func (p *c09fdDQOutput) Stop() {}
 func (p *c09fdDQOutput) Out(e *pipeline.Event) {
 	p.book.mu.Lock()
 	pp := p.book.pipes[p.pipe]
-	pp.Handed = append(pp.Handed, c09fdHand{Offset: e.Offset, DqName: p.config.Name})
+	name := p.config.Name
+	if name == "" {
+		name = "default" // a dead queue configured with its type alone: every option at its default
+	}
+	pp.Handed = append(pp.Handed, c09fdHand{Offset: e.Offset, DqName: name})
 	p.book.mu.Unlock()
 	p.controller.Commit(e)
 }
 
 func c09fdConfig(dq string) *cfg.PipelineConfig {
 	js := `{"input":{"type":"c09fdin"},"output":{"type":"c09fdfail"}}`
-	if dq != "none" {
+	switch dq {
+	case "none":
+	case "empty":
+		js = `{"input":{"type":"c09fdin"},"output":{"type":"c09fdfail","deadqueue":{}}}`
+	case "type":
+		js = `{"input":{"type":"c09fdin"},"output":{"type":"c09fdfail","deadqueue":{"type":"c09fddq"}}}`
+	default:
 		js = fmt.Sprintf(`{"input":{"type":"c09fdin"},"output":{"type":"c09fdfail","deadqueue":{"type":"c09fddq","name":%q}}}`, dq)
 	}
 	raw, err := simplejson.NewJson([]byte(js))
@@ -186,6 +198,14 @@ func c09fdRun(c *c09fdCase) c09fdRes {
 		panic(err)
 	} else if info.DeadQueueInfo != nil {
 		res.StaticHasDQ, res.StaticDQ = true, info.DeadQueueInfo.Type
+	}
+	res.StaticShape = map[string]bool{}
+	for _, shape := range []string{"none", "empty", "type", "a"} {
+		info, err := f.getStaticInfo(c09fdConfig(shape), pipeline.PluginKindOutput, nil)
+		if err != nil {
+			panic(err)
+		}
+		res.StaticShape[shape] = info.DeadQueueInfo != nil
 	}
 	for _, p := range f.Pipelines {
 		p.Start()
